@@ -149,9 +149,14 @@ class Inter:
                 events.append(e2)
                 items.append(("e", e2))
                 if e is after_event:
-                    for c in extra_conds:
-                        if not add_cond(c):
-                            return None
+                    # the callee's decisions and events, in the callee's own order
+                    for (k2, it2) in extra_conds:
+                        if k2 == "c":
+                            if not add_cond(it2):
+                                return None
+                        else:
+                            events.append(it2)
+                            items.append(("e", it2))
         # contradictory facts about the same atom
         seen = {}
         for (a, o, _b, _l) in conds:
@@ -193,7 +198,19 @@ class Inter:
         out = []
         for cp in oks:
             ret = sym.subst(cp.ret, m)
-            extra = [(sym.subst(a, m), o, bb, ln) for (a, o, bb, ln) in cp.conds]
+            memo = {}
+            extra = []
+            for (k2, it2) in cp.items:
+                if k2 == "c":
+                    (a, o, bb, ln) = it2
+                    extra.append(("c", (sym.subst(a, m, memo), o, bb, ln)))
+                else:
+                    ce = it2
+                    e3 = P.Event(ce.fn, ce.bb, ce.line, ce.callee, ce.name, [sym.subst(a, m, memo) for a in ce.args],
+                                 [sym.subst(a, m, memo) for a in ce.raw], sym.subst(ce.result, m, memo) if ce.result is not None else None, ce.target, ce.self_ty)
+                    e3.idx = -1
+                    e3.opened = ce.opened
+                    extra.append(("e", e3))
             mapping = {e.result: ret}
             for i in muts:
                 # the caller saw the pointee of a `&mut` argument as "mutated by this call": now it is the callee's value
@@ -204,21 +221,6 @@ class Inter:
             q2 = self._subst_path(p, mapping, extra, e)
             if q2 is None:
                 continue
-            # splice the callee's events (in the caller's terms) right after the call
-            memo = {}
-            evs = []
-            for ce in cp.events:
-                e3 = P.Event(ce.fn, ce.bb, ce.line, ce.callee, ce.name, [sym.subst(a, m, memo) for a in ce.args],
-                             [sym.subst(a, m, memo) for a in ce.raw], sym.subst(ce.result, m, memo) if ce.result is not None else None, ce.target, ce.self_ty)
-                e3.idx = -1
-                evs.append(e3)
-            oe = self._opened.get(id(q2))
-            pos = next((i for i, x in enumerate(q2.events) if x is oe), None)
-            if pos is not None:
-                q2.events[pos + 1:pos + 1] = evs
-                ipos = next((i for i, (k, x) in enumerate(q2.items) if k == "e" and x is oe), None)
-                if ipos is not None:
-                    q2.items[ipos + 1:ipos + 1] = [("e", x) for x in evs]
             out.append(q2)
         return out or [p]
 
@@ -660,6 +662,8 @@ class Inter:
     def writes_on_path(self, p, mapping=None):
         out = []
         for e in p.events:
+            if e.opened and e.target is not None:
+                continue  # the callee's events were spliced into the path right after this call
             out.extend(self.writes_of_event(e, mapping))
         return out
 
